@@ -875,6 +875,33 @@ def install_proxies(modules):
       mod.ctypes = CTYPES
 
 
+class module_locks(object):  # pylint: disable=invalid-name
+  """with module_locks(mod, ...): (entered by a managed thread) locks created at import time as globals of the modules
+  under test are replaced by scheduler-aware ones for the duration of the run, so that a thread preempted while holding
+  one does not block the others for real."""
+
+  def __init__(self, *mods):
+    self.mods = mods
+    self.saved = []
+
+  def __enter__(self):
+    lock_t, rlock_t = type(real_threading.Lock()), type(real_threading.RLock())
+    for mod in self.mods:
+      for name, val in list(vars(mod).items()):
+        if isinstance(val, lock_t):
+          self.saved.append((mod, name, val))
+          setattr(mod, name, VLock())
+        elif isinstance(val, rlock_t):
+          self.saved.append((mod, name, val))
+          setattr(mod, name, VRLock())
+    return self
+
+  def __exit__(self, *a):
+    for mod, name, val in self.saved:
+      setattr(mod, name, val)
+    self.saved = []
+
+
 # ---------------------------------------------------------------------- line-level yield points
 def _on_line(code, line):
   s = ACTIVE[0]
